@@ -148,10 +148,11 @@ def _impl_header(toks, i):
     return norm(toks[i:k]), k
 
 
-def find_item(toks, spec, lo=0, hi=None):
+def find_item(toks, spec, lo=0, hi=None, depth=0):
     """spec: 'fn name' | 'struct N' | 'enum N' | 'const N' | 'type N' |
     'trait N' | 'impl <header>' (header normalised, generics included).
-    Returns list of (start, end, kw_index)."""
+    `fn handlers::name` addresses an item inside the inline module `handlers`.
+    Returns list of (start, end, kw_index, depth); depth 0 = top level."""
     spec_n = norm(spec)
     kw = spec_n.split(" ", 1)[0]
     out = []
@@ -165,17 +166,22 @@ def find_item(toks, spec, lo=0, hi=None):
             while toks[b].text not in ("{", ";"):
                 b += 1
             if toks[b].text == "{":
-                out.extend(find_item(toks, spec, b + 1, e))
+                parts = spec_n.split(" ")
+                if len(parts) >= 4 and parts[1] == name and parts[2] == "::":
+                    sub = parts[0] + " " + " ".join(parts[3:])
+                    out.extend(find_item(toks, sub, b + 1, e, depth))
+                else:
+                    out.extend(find_item(toks, spec, b + 1, e, depth + 1))
             continue
         if k != kw:
             continue
         if kw == "impl":
             hdr, _ = _impl_header(toks, ki)
             if hdr == spec_n:
-                out.append((s, e, ki))
+                out.append((s, e, ki, depth))
         else:
             if _name_after(toks, ki) == spec_n.split(" ")[1]:
-                out.append((s, e, ki))
+                out.append((s, e, ki, depth))
     return out
 
 
@@ -319,6 +325,17 @@ def rewrite(toks, log, where, keep_attrs=()):
                         out.append(Tok(IDENT, "vpanic()", t.pos))
                         i = e + 1
                         continue
+        # R12c: Vec::with_capacity(n) -> vec_with_capacity_checked(n): same
+        # value, plus the C15 obligation that n is bounded (16 MiB)
+        if t.kind == IDENT and t.text == "Vec":
+            k = nxt(i)
+            if k < n and toks[k].text == "::":
+                k2 = nxt(k)
+                if k2 < n and toks[k2].kind == IDENT and toks[k2].text == "with_capacity":
+                    log.add("R12c", where, "Vec::with_capacity", "vec_with_capacity_checked")
+                    out.append(Tok(IDENT, "vec_with_capacity_checked", t.pos))
+                    i = k2 + 1
+                    continue
         # R13 closure parameter |_|
         if t.kind == PUNCT and t.text == "|":
             k = nxt(i)
